@@ -100,7 +100,10 @@ class Acc:
         for s in other.samples:
             self.sample(s)
         for k, v in other.notes.items():
-            self.notes.setdefault(k, v)
+            if isinstance(v, dict) and isinstance(self.notes.get(k), dict):
+                self.notes[k].update(v)
+            else:
+                self.notes.setdefault(k, v)
 
 
 # ---------------------------------------------------------------------------
